@@ -139,6 +139,8 @@ def build_predictor(plan, sim, provider, hook=None, batch=None, max_instances="p
         nets["bottomup"] = net
         pred = P.BottomUpPredictor(bottomup_config=head_cfg(plan, "bottomup"), bottomup_model=net, backbone_type="unet", peak_threshold=0.2,
                                    integral_refinement=refine, integral_patch_size=5, batch_size=bs, preprocess_config=prep)
+    for net in nets.values():
+        net.ringing = set(plan.get("ringing", ()))
     import sleap_io as sio
 
     pred._initialize_inference_model()  # same order as from_trained_models(): model first, pipeline second
